@@ -1151,7 +1151,16 @@ func SuccessSinks(fn *ssa.Function) []Sink {
 	var out []Sink
 	res := fn.Signature.Results()
 	if res.Len() == 0 {
-		return nil
+		// a procedure cannot refuse: every normal return is a completion
+		for _, b := range fn.Blocks {
+			if len(b.Instrs) == 0 {
+				continue
+			}
+			if ret, ok := b.Instrs[len(b.Instrs)-1].(*ssa.Return); ok {
+				out = append(out, Sink{Instr: ret, Note: "return"})
+			}
+		}
+		return out
 	}
 	last := res.Len() - 1
 	isErr := isErrorType(res.At(last).Type())
